@@ -761,13 +761,14 @@ class Interp:
         kwargs = dict(kwargs)
         names = [p.arg for p in a.posonlyargs + a.args]
         defaults = [None] * (len(names) - len(a.defaults)) + list(a.defaults)
+        dframe = Frame(qualname, {})       # defaults are evaluated in the module of the function
         for name, default in zip(names, defaults):
             if args:
                 env.set(name, args.pop(0))
             elif name in kwargs:
                 env.set(name, kwargs.pop(name))
             elif default is not None:
-                env.set(name, self.eval(default, env))
+                env.set(name, self.eval(default, env, dframe))
             else:
                 raise PyRaise('TypeError', 'missing argument %s of %s' % (name, qualname))
         if a.vararg:
@@ -779,7 +780,7 @@ class Interp:
             if p.arg in kwargs:
                 env.set(p.arg, kwargs.pop(p.arg))
             elif default is not None:
-                env.set(p.arg, self.eval(default, env))
+                env.set(p.arg, self.eval(default, env, dframe))
             else:
                 raise PyRaise('TypeError', 'missing keyword argument ' + p.arg)
         if a.kwarg:
